@@ -33,6 +33,9 @@ var failClasses = []failClass{
 	{"unknown-field", `{{ item.ZzNope }}`, true, true},
 	{"unknown-field-of-context-var", `{{ root.ZzNope.X }}`, true, true},
 	{"unknown-method", `{{ item.ZzNope() }}`, true, true},
+	{"unexported-field", `{{ item.secret }}`, true, true},
+	{"unexported-field:via-index", `{{ root.Items[0].secret }}`, true, true},
+	{"unexported-field:isset-then-use", `{{ if isset(item.secret) }}{{ end }}{{ item.secret }}`, true, true},
 	{"unknown-block", `{{ yield zzNope() }}`, true, true},
 	{"unknown-template:include", `{{ include "/zz/nope.jet" }}`, true, true},
 	{"unknown-template:exec", `{{ exec("/zz/nope.jet") }}`, true, true},
@@ -153,7 +156,21 @@ func position(msg string, files []string) (string, int, bool) {
 	return ps[0].File, ps[0].Line, true
 }
 
-var rePanicType = regexp.MustCompile(`[^a-zA-Z0-9_.*]+`)
+var reToken = regexp.MustCompile(`@@\d+\.\d+@@`)
+
+// untoken removes the visible site tokens the twin program renders.
+func untoken(s string) string { return reToken.ReplaceAllString(s, "") }
+
+// tokenPrefix: everything rendered before the n-th dynamic call of site id, tokens removed;
+// ok=false when that token is not in the output (site inside try/exec, or not reached).
+func tokenPrefix(out string, id, n int) (string, bool) {
+	tok := fmt.Sprintf("@@%d.%d@@", id, n)
+	i := strings.Index(out, tok)
+	if i < 0 {
+		return "", false
+	}
+	return untoken(out[:i]), true
+}
 
 func RunC12(env *sim.Env) {
 	t := env.Tape
@@ -184,7 +201,7 @@ func RunC12(env *sim.Env) {
 	judged := 0
 	var sampleCases []string
 	for _, m := range world.Mains {
-		call := Call{Tmpl: m, Data: data}
+		call := Call{Tmpl: m, Data: data, Tokens: true}
 		T, nested := run(world.Files, call)
 		if T.Failed() {
 			env.Stat("counters:mains_whose_fault_free_run_fails", 1)
@@ -203,6 +220,9 @@ func RunC12(env *sim.Env) {
 		var reached []*reach
 		idx := map[int]*reach{}
 		for i, id := range T.Probes.IDs {
+			if id == gen.MarkRoot {
+				continue
+			}
 			r := idx[id]
 			if r == nil {
 				r = &reach{id: id}
@@ -231,8 +251,14 @@ func RunC12(env *sim.Env) {
 				env.Stat("counters:sites_skipped_first_reached_inside_try_or_exec", 1)
 				continue
 			}
-			o := T.Probes.Offs[first-1]
-			want := tout[:len(Norm(T.Out[:o]))]
+			// "everything rendered before the site" is read off the twin's final output (the site
+			// renders a visible token there), not off the writer's state at call time: the oracle must
+			// not depend on when an implementation flushes
+			want, okTok := tokenPrefix(tout, r.id, 1)
+			if !okTok {
+				env.Stat("counters:sites_skipped_token_not_in_output", 1)
+				continue
+			}
 			for _, e := range ps.Encl {
 				env.Stat("probe:failure_site_below_"+e, 1)
 			}
@@ -294,7 +320,7 @@ func RunC12(env *sim.Env) {
 						env.Violate("position", fc.Name+":wrong-line", "%s: the error names %v: %s", where, named, sim.Q(F.Err))
 					}
 				}
-				got := Norm(F.Out)
+				got := untoken(Norm(F.Out))
 				if !strings.HasPrefix(got, want) {
 					env.Violate("streamed-prefix", fc.Name+":prefix", "%s: what preceded the failing action is not (all) in the writer.\nexpected prefix: %s\ngot:             %s", where, sim.Q(want), sim.Q(got))
 				} else if fc.Exact && got != want {
@@ -322,8 +348,10 @@ func RunC12(env *sim.Env) {
 				judged++
 				env.Stat("fault:function_panics_with_error", 1)
 				where := fmt.Sprintf("class function-reports-error: fail(%d) at %s line %d (under %v) panics with an error at its dynamic call #%d (overall call %d), executing %s", r.id, ps.File, ps.Line, ps.Encl, di+1, k, m)
-				ok := T.Probes.Offs[k-1]
-				wantk := Norm(T.Out[:ok])
+				wantk, okTok := tokenPrefix(tout, r.id, di+1)
+				if !okTok {
+					continue
+				}
 				if F.Panic != nil {
 					env.Violate("returns-error", "function-error:panic", "%s: Execute panicked: %v", where, sim.Clip(F.Panic.String(), 300))
 					continue
@@ -339,10 +367,14 @@ func RunC12(env *sim.Env) {
 				if !strings.Contains(F.Err, fmt.Sprintf("INJ-%d-", r.id)) {
 					env.Violate("returns-error", "function-error:error-replaced", "%s: the returned error does not carry the function's error: %s", where, sim.Q(F.Err))
 				}
-				if at := F.Probes.Offs[k-1]; at != ok {
-					env.Violate("streamed-prefix", "function-error:not-streamed", "%s: at the fault instant the writer held %d bytes, the fault-free run had written %d before this call", where, at, ok)
+				if at := F.Probes.Offs[k-1]; at < 0 || at > len(F.Out) || untoken(Norm(F.Out[:at])) != wantk {
+					held := ""
+					if at >= 0 && at <= len(F.Out) {
+						held = F.Out[:at]
+					}
+					env.Violate("streamed-prefix", "function-error:not-streamed", "%s: at the fault instant the writer held %s, but %s had been rendered before this call", where, sim.Q(untoken(Norm(held))), sim.Q(wantk))
 				}
-				if got := Norm(F.Out); got != wantk {
+				if got := untoken(Norm(F.Out)); got != wantk {
 					key := "function-error:late-bytes"
 					if !strings.HasPrefix(got, wantk) {
 						key = "function-error:prefix"
@@ -366,7 +398,7 @@ func RunC12(env *sim.Env) {
 			variant[ps.File] = strings.Replace(world.Files[ps.File], gen.SitePlaceholder(ps.ID), fc.Text, 1)
 			F, _ := run(variant, call)
 			env.Stat("counters:unreached_sites_planted", 1)
-			if F.Key() != T.Key() {
+			if untoken(F.Key()) != untoken(T.Key()) {
 				env.Violate("unreached-site-inert", fc.Name+":unreached-site-changed-result", "action %s planted at %s line %d, which %s never reaches, changed the result: %s vs fault-free %s", fc.Text, ps.File, ps.Line, m, F.Describe(), T.Describe())
 			}
 		}
